@@ -17,10 +17,18 @@ impl Loader<String> for L {
     async fn load(&self, keys: &[String]) -> Result<HashMap<String, i64>, ()> { self.calls.fetch_add(keys.len(), Ordering::SeqCst); Ok(keys.iter().map(|k| (k.clone(), k.len() as i64)).collect()) }
 }
 
-async fn run_ops<C: async_graphql::dataloader::CacheFactory>(dl: DataLoader<L, C>, calls: Arc<AtomicUsize>, ops: &[Value], caching: bool, bad: &mut Vec<String>) {
-    // reference model (i32 keys): values fed and not cleared since; both enable flags
-    let mut fed: HashMap<i32, i64> = HashMap::new();
-    let mut seen: HashMap<i32, i64> = HashMap::new();   // what the cache may legitimately hold
+/// exact reference model of the documented cache (i32 keys): `entries` most recently used FIRST; cap = None: unbounded map
+struct Model { entries: Vec<(i32, i64)>, cap: Option<usize>, caching: bool }
+impl Model {
+    fn get(&mut self, k: i32) -> Option<i64> { let p = self.entries.iter().position(|e| e.0 == k)?; let e = self.entries.remove(p); if self.cap.is_some() { self.entries.insert(0, e); } else { self.entries.insert(p, e); } Some(e.1) }
+    fn put(&mut self, k: i32, v: i64) { if !self.caching { return; }
+        if let Some(p) = self.entries.iter().position(|e| e.0 == k) { self.entries.remove(p); } else if let Some(c) = self.cap { if self.entries.len() >= c { self.entries.pop(); } }
+        self.entries.insert(0, (k, v)); }
+    fn map(&self) -> HashMap<i32, i64> { self.entries.iter().cloned().collect() }
+}
+
+async fn run_ops<C: async_graphql::dataloader::CacheFactory>(dl: DataLoader<L, C>, calls: Arc<AtomicUsize>, ops: &[Value], caching: bool, cap: Option<usize>, bad: &mut Vec<String>) {
+    let mut m = Model { entries: Vec::new(), cap, caching };
     let (mut all_on, mut ty_on) = (true, true);
     for (i, op) in ops.iter().enumerate() {
         let k = op["k"].as_i64().unwrap_or(0) as i32;
@@ -29,29 +37,30 @@ async fn run_ops<C: async_graphql::dataloader::CacheFactory>(dl: DataLoader<L, C
                 let before = calls.load(Ordering::SeqCst);
                 let r = dl.load_one(k).await.unwrap();
                 let after = calls.load(Ordering::SeqCst);
-                let ok = r == f(k) || (fed.contains_key(&k) && r == fed.get(&k).copied());
-                if !ok { bad.push(format!("op#{} load({}) = {:?}", i, k, r)); }
-                if fed.get(&k).is_none() && r != f(k) { bad.push(format!("op#{} load({}) = {:?} but nothing was fed", i, k, r)); }
-                if caching && all_on && ty_on && seen.contains_key(&k) && after != before { bad.push(format!("op#{} load({}) hit the loader although the value is cached", i, k)); }
-                if caching && all_on && ty_on { if let Some(v) = r { seen.insert(k, v); } }
+                // a load returns the cached value exactly when caching is enabled (both flags) and the cache holds the key; the loader's value otherwise
+                let use_cache = caching && all_on && ty_on;
+                let hit = if use_cache { m.get(k) } else { None };
+                let exp = match hit { Some(v) => Some(v), None => f(k) };
+                if r != exp { bad.push(format!("op#{} load({}) = {:?}, expected {:?}", i, k, r, exp)); }
+                if hit.is_some() && after != before { bad.push(format!("op#{} load({}) hit the loader although the value is cached", i, k)); }
+                if hit.is_none() && after == before { bad.push(format!("op#{} load({}) did not ask the loader although the key is not served from the cache", i, k)); }
+                if hit.is_none() && use_cache { if let Some(v) = f(k) { m.put(k, v); } }
             }
             "load_s" => { let s = format!("s{}", k); let r = dl.load_one(s.clone()).await.unwrap(); if r != Some(s.len() as i64) { bad.push(format!("op#{} load_s = {:?}", i, r)); } }
-            "feed" => { let v = op["v"].as_i64().unwrap(); dl.feed_one(k, v).await; if caching { fed.insert(k, v); seen.insert(k, v); } }
-            "clear" => { dl.clear::<i32>(); fed.clear(); seen.clear();
-                         let c = dl.get_cached_values::<i32>().await; if !c.is_empty() { bad.push(format!("op#{} cache not empty after clear: {:?}", i, c)); } }
-            "clear_one" => { dl.clear_one(&k); fed.remove(&k); seen.remove(&k);
-                         let c = dl.get_cached_values::<i32>().await; if c.contains_key(&k) { bad.push(format!("op#{} key {} still cached after clear_one", i, k)); } }
+            "feed" => { let v = op["v"].as_i64().unwrap(); dl.feed_one(k, v).await; m.put(k, v); }
+            "clear" => { dl.clear::<i32>(); m.entries.clear(); }
+            "clear_one" => { dl.clear_one(&k); m.entries.retain(|e| e.0 != k); }
             "enable" => { let b = op["b"].as_bool().unwrap(); dl.enable_cache::<i32>(b).await; ty_on = b; }
             "enable_s" => { let b = op["b"].as_bool().unwrap(); dl.enable_cache::<String>(b).await; }
             "enable_all" => { let b = op["b"].as_bool().unwrap(); dl.enable_all_cache(b); all_on = b; }
-            "cached" => { let c = dl.get_cached_values::<i32>().await;
-                          if !caching && !c.is_empty() { bad.push(format!("op#{} NoCache holds {:?}", i, c)); }
-                          if caching { for (kk, vv) in &fed { if c.get(kk) != Some(vv) { bad.push(format!("op#{} fed ({},{}) is not in the cache", i, kk, vv)); } } }
-                          for (kk, vv) in &c { if seen.get(kk) != Some(vv) { bad.push(format!("op#{} cached ({},{}) was never stored / was cleared", i, kk, vv)); } } }
             _ => {}
         }
+        // after EVERY operation the cache content is exactly the model's
+        let c = dl.get_cached_values::<i32>().await;
+        if c != m.map() { bad.push(format!("op#{} {}: cache holds {:?}, the documented cache would hold {:?}", i, op, sorted(&c), sorted(&m.map()))); break; }
     }
 }
+fn sorted(m: &HashMap<i32, i64>) -> Vec<(i32, i64)> { let mut v: Vec<_> = m.iter().map(|(a, b)| (*a, *b)).collect(); v.sort(); v }
 
 /// args {"cache": "hash"|"lru"|"none", "ops": [{"op": "load", "k": 1}, ...]}
 pub fn loader(args: &Value) -> Outcome {
@@ -64,9 +73,12 @@ pub fn loader(args: &Value) -> Outcome {
         let l = L { calls: calls.clone() };
         let d = std::time::Duration::from_millis(0);
         match kind.as_str() {
-            "hash" => run_ops(DataLoader::with_cache(l, TokioSpawner::current(), TokioTimer::default(), HashMapCache::default()).delay(d), calls, &ops, true, &mut bad).await,
-            "lru" => run_ops(DataLoader::with_cache(l, TokioSpawner::current(), TokioTimer::default(), LruCache::new(64)).delay(d), calls, &ops, true, &mut bad).await,
-            _ => run_ops(DataLoader::with_cache(l, TokioSpawner::current(), TokioTimer::default(), NoCache).delay(d), calls, &ops, false, &mut bad).await,
+            "hash" => run_ops(DataLoader::with_cache(l, TokioSpawner::current(), TokioTimer::default(), HashMapCache::default()).delay(d), calls, &ops, true, None, &mut bad).await,
+            "lru" => run_ops(DataLoader::with_cache(l, TokioSpawner::current(), TokioTimer::default(), LruCache::new(64)).delay(d), calls, &ops, true, Some(64), &mut bad).await,
+            "lru1" => run_ops(DataLoader::with_cache(l, TokioSpawner::current(), TokioTimer::default(), LruCache::new(1)).delay(d), calls, &ops, true, Some(1), &mut bad).await,
+            "lru2" => run_ops(DataLoader::with_cache(l, TokioSpawner::current(), TokioTimer::default(), LruCache::new(2)).delay(d), calls, &ops, true, Some(2), &mut bad).await,
+            "lru3" => run_ops(DataLoader::with_cache(l, TokioSpawner::current(), TokioTimer::default(), LruCache::new(3)).delay(d), calls, &ops, true, Some(3), &mut bad).await,
+            _ => run_ops(DataLoader::with_cache(l, TokioSpawner::current(), TokioTimer::default(), NoCache).delay(d), calls, &ops, false, None, &mut bad).await,
         }
     });
     Outcome { holds: bad.is_empty(), observed: if bad.is_empty() { "history consistent with the reference cache".into() } else { bad.join("; ") }, expected: "no panic; loads return loader or fed values; clear empties; cached values were stored".into() }
@@ -75,15 +87,24 @@ pub fn loader(args: &Value) -> Outcome {
 pub fn inputs(seed: u64) -> impl Iterator<Item = Value> {
     let mut out = Vec::new();
     // every operation as the FIRST operation on a fresh loader (empty state), for each cache kind
-    for c in ["hash", "lru", "none"] {
+    for c in ["hash", "lru", "lru2", "none"] {
         for op in [json!({"op":"load","k":1}), json!({"op":"load","k":-1}), json!({"op":"feed","k":1,"v":7}), json!({"op":"clear"}), json!({"op":"clear_one","k":1}), json!({"op":"enable","b":false}),
                    json!({"op":"enable","b":true}), json!({"op":"enable_s","b":false}), json!({"op":"enable_all","b":false}), json!({"op":"cached"})] {
             out.push(json!({"cache": c, "ops": [op.clone(), {"op":"load","k":1}, {"op":"cached"}]}));
         }
     }
     let mut r = Rng(seed);
-    for _ in 0..120 {
-        let c = *r.pick(&["hash", "lru", "none"]);
+    // recency: a re-fed / re-loaded key must survive the next eviction; flags survive clear
+    for c in ["lru2", "lru3"] {
+        out.push(json!({"cache": c, "ops": [{"op":"feed","k":1,"v":10},{"op":"feed","k":2,"v":20},{"op":"feed","k":1,"v":11},{"op":"feed","k":3,"v":30},{"op":"feed","k":4,"v":40}]}));
+        out.push(json!({"cache": c, "ops": [{"op":"load","k":1},{"op":"load","k":2},{"op":"load","k":1},{"op":"load","k":3},{"op":"load","k":4},{"op":"load","k":1}]}));
+    }
+    for c in ["hash", "lru2"] {
+        out.push(json!({"cache": c, "ops": [{"op":"enable","b":false},{"op":"clear"},{"op":"feed","k":2,"v":70},{"op":"load","k":2},{"op":"load","k":1}]}));
+        out.push(json!({"cache": c, "ops": [{"op":"enable_all","b":false},{"op":"clear_one","k":2},{"op":"feed","k":2,"v":70},{"op":"load","k":2},{"op":"enable_all","b":true},{"op":"load","k":2}]}));
+    }
+    for _ in 0..160 {
+        let c = *r.pick(&["hash", "lru", "lru1", "lru2", "lru3", "lru2", "none"]);
         let n = 2 + r.below(10);
         let ops: Vec<Value> = (0..n).map(|_| { let k = r.below(6) as i64 - 1; match r.below(10) {
             0 | 1 | 2 => json!({"op":"load","k":k}), 3 => json!({"op":"load_s","k":k}), 4 => json!({"op":"feed","k":k,"v": 1000 + r.below(5) as i64}), 5 => json!({"op":"clear"}),
